@@ -266,6 +266,11 @@ def run(ctx: common.Ctx):
     if ls[-1] == 0 and L > 1:   # padded: the old normalisation divides by zero (negative witness)
       add(f'filters F diffstep_old {fbits(dt)} {fbits(tau)} {order} {fbits(radius)} {lss}',
           'old horizontal_diffusion_step_filter (witness)', inp, None, 'old-nan')
+    else:                       # unpadded: old and current normalisation coincide
+      with ctx.impl('diffusion-step-filter-exception', inp):
+        add(f'filters F diffstep_old {fbits(dt)} {fbits(tau)} {order} {fbits(radius)} {lss}',
+            'horizontal_diffusion_step_filter scaling (old normalisation, unpadded)', inp,
+            flat(ti.horizontal_diffusion_step_filter(grid, dt, tau, order)(None, np.ones(L))))
 
     # Robert-Asselin
     r = float(rng.choice([0.0, 0.5, 0.01, 0.05, rng.uniform(0, 0.5), rng.uniform(0, 1)]))
@@ -462,6 +467,30 @@ def run(ctx: common.Ctx):
                  and abs(fc['s'] - cur['s']) <= 1e-12 * (1 + abs(cur['s']) + abs(d['s'])) and ff is lin_fut,
                  'ra-linear-fixed', 'a sequence linear in time is not a fixed point of Robert-Asselin',
                  dict(r=rr, shape=[M, L]))
+
+  # ------------------------------------------------------------------ the real code at the excluded points
+  # (side conditions of the theorems; recorded, never an alarm)
+  from dinosaur import spherical_harmonic as sh
+  excluded = {}
+
+  def at_excluded(name, fn):
+    with np.errstate(all='ignore'):
+      try:
+        excluded[name] = flat(fn()).tolist()
+      except Exception as e:  # pylint: disable=broad-except
+        excluded[name] = f'{type(e).__name__}: {e}'
+
+  g1 = sh.Grid(longitude_wavenumbers=1, total_wavenumbers=1, longitude_nodes=4, latitude_nodes=2)
+  g4 = sh.Grid(longitude_wavenumbers=3, total_wavenumbers=4, longitude_nodes=8, latitude_nodes=4)
+  at_excluded('lmax=0 (single total wavenumber)', lambda: filtering.exponential_filter(g1)(np.ones(g1.modal_shape)))
+  at_excluded('cutoff=1', lambda: filtering.exponential_filter(g4, 2.0, 1, 1.0)(np.ones(4)))
+  at_excluded('order=0 diffusion (mean not preserved)', lambda: filtering.horizontal_diffusion_filter(g4, 0.5, 0)(np.ones(4)))
+  at_excluded('cutoff<0 (mean not preserved)', lambda: filtering.exponential_filter(g4, 2.0, 1, -0.5)(np.ones(4)))
+  at_excluded('tau=0 step filter', lambda: ti.exponential_step_filter(g4, 1.0, 0.0, 1, 0.0)(None, np.ones(4)))
+  at_excluded('attenuation=800 (exp underflow: factor 0)', lambda: filtering.exponential_filter(g4, 800.0, 1, 0.0)(np.ones(4)))
+  at_excluded('non-integer 2*order with cutoff>0', lambda: filtering.exponential_filter(
+      g4, 2.0, np.array([1.25]), 0.5)(np.ones(4)))
+  ctx.notes.append(dict(excluded_points_on_real_code=excluded))
 
   if not ctx.quick:
     ctx.leanchecker(['DinoProofs.Properties.C15'])
